@@ -28,8 +28,6 @@ fn expect(id: CodecId, st: St, k: usize, got: &KInfo, exp: &[u8], site: &str, wh
         ensure!(got.bs < (1u128 << (k * m.bits)), format!("{site}/canonical"), "{what}: storage integer {:#x} is not below 2^{} (garbage above the live bits)", got.bs, k * m.bits);
     }
     ensure_eq!(got.bs, packed, format!("{site}/bits"), "{what}: storage integer");
-    let fresh = want_info(kcall(id, k, st, &KReq::Info(exp.to_vec())), "fresh k-mer")?;
-    ensure!(got.hash == fresh.hash, format!("{site}/hash"), "{what}: hashes differently from the k-mer built from the same symbols");
     Ok(())
 }
 
